@@ -133,6 +133,11 @@ Theorem c06_substring_negative_length_refuted :
 Proof. exact substring_negative_length_refuted. Qed.
 Print Assumptions c06_substring_negative_length_refuted.
 
+(** ** [${!a[@]}] / [${!a[*]}] *)
+Theorem c06_member_keys : forall sh c, dq_args (member_keys sh c) = keys_spec sh c.
+Proof. exact member_keys_eq_spec. Qed.
+Print Assumptions c06_member_keys.
+
 (** ** operator recognition order of the grammar (table regenerated from word.rs on every run):
     no operator literal is tried before a longer one it is a proper prefix of. *)
 Theorem c06_ops_longest_first : forall i j a b, (i < j)%nat ->
